@@ -796,6 +796,32 @@ M("C11", "M11-7-only-a-missing-positions-file-is-tolerated", dict(
   title="SegmentReader::open: the positions file may be absent, nothing else is tolerated - the empty composite is only substituted when the preceding open_read failed with OpenReadError::FileDoesNotExist; an I/O error or an incompatible file is returned to the caller (reload, merge, advance_deletes)",
   functions=["SegmentReader::open_with_custom_alive_set"], bounds="every path to CompositeFile::empty(); values the executor does not model are unconstrained")
 
+M("C10", "M10-11-in-memory-meta-follows-the-durable-one", dict(
+    root=SU + r"save_metas$", root_impl="SegmentUpdater", depth=2, unroll=2, inline=[r"segment_updater::save_metas$"],
+    events=ev(store_meta={"call": r"SegmentUpdater::store_meta$"}),
+    checks=[("precedes_ok", "meta_write", "store_meta"), ("not_after_fail", "meta_write", "store_meta"), ("reach", "store_meta")]),
+  title="the in-memory IndexMeta keeps the files of the last durable commit in GC's living set: it is only replaced after meta.json was written successfully (otherwise a GC after a failed commit / merge publication deletes files the meta.json on storage still lists)",
+  functions=["SegmentUpdater::save_metas", "segment_updater::save_metas"], bounds="inline depth 2")
+
+M("C18", "M18-6-lock-held-until-merges-were-awaited", dict(
+    root=r"^indexer::index_writer::" + I + r"::wait_merging_threads$", depth=2, unroll=2, inline=[],
+    native=[("probe", "lock_held_while_waiting_for_merges")], absent_ok_events=["release"],
+    events={"wait": {"call": r"SegmentUpdater::wait_merging_thread$"},
+            "release": {"call": r"Option::<directory::directory_lock::DirectoryLock>::take$|std::mem::drop::<.*DirectoryLock|std::mem::replace::<.*DirectoryLock|std::mem::take::<.*DirectoryLock"},
+            "ret": {"ret": True}},
+    checks=[("precedes", "wait", "release"), ("reach", "wait")]),
+  title="wait_merging_threads: the writer lock is not given up before the pending merges were awaited (merge threads still write segment files and publish meta.json); it goes with the writer when the call returns (confirmed natively by the gated-merge probe)",
+  functions=["IndexWriter::wait_merging_threads"], bounds="unroll 2")
+
+M("C20", "M20-3-every-ok-verdict-comes-from-the-crc", dict(
+    root=r"^directory::managed_directory::" + I + r"::validate_checksum$", depth=2, unroll=2, inline=[],
+    native=[("probe", "revalidation_detects_later_corruption")],
+    events={"finalize": {"call": r"crc32fast::Hasher::finalize$"},
+            "ret": {"ret": True}},
+    checks=[("ok_requires", "finalize"), ("reach", "finalize")]),
+  title="ManagedDirectory::validate_checksum: every Ok(..) verdict was obtained by hashing the file's current content - no path returns Ok without having computed the CRC (no memoised verdicts; confirmed natively by the re-validation probe)",
+  functions=["ManagedDirectory::validate_checksum"], bounds="unroll 2")
+
 # =============================================================================================
 # C03: mixed-type numeric range bounds (mirbv: loop-free integer MIR -> QF_BV)
 # =============================================================================================
